@@ -192,7 +192,15 @@ impl LightClientProtocol {
         <T as Entity>::Builder: ProverMessageBuilder,
         <<T as Entity>::Builder as Builder>::Entity: Into<packed::LightClientMessageUnion>,
     {
-        let (parent_chain_root, proof) = {
+        let (parent_chain_root, proof) = if last_block.is_genesis() {
+            // The genesis block has no ancestors: there is no parent chain root, and nothing can
+            // be proved against it.
+            if !items_positions.is_empty() {
+                let errmsg = "failed to generate a proof since the genesis block has no ancestors";
+                return StatusCode::InternalError.with_context(errmsg);
+            }
+            (Default::default(), Default::default())
+        } else {
             let snapshot = self.shared.snapshot();
             let mmr = snapshot.chain_root_mmr(last_block.number() - 1);
             let parent_chain_root = match mmr.get_root() {
